@@ -300,10 +300,24 @@ def check(item, case, rec):
         fc = fem.FieldContainer([fb])
         set_state(fc, X, case, dim)
         if item.startswith("Pressure"):
-            it = fem.SolidBodyPressure(fc, pressure=case["load"] + 0.1)
+            if case["preload"]:
+                # created without / with another value and ramped through update(), as a Step does
+                it = fem.SolidBodyPressure(fc) if case["useed"] % 2 else fem.SolidBodyPressure(fc, pressure=-3.3)
+                it.assemble.vector(fc)
+                it.update(case["load"] + 0.1)
+                rec.label("load-set-by-update")
+            else:
+                it = fem.SolidBodyPressure(fc, pressure=case["load"] + 0.1)
             symmetric = not case["mask"] and fkind != "axi"
         else:
-            it = fem.SolidBodyCauchyStress(fc, cauchy_stress=rng.uniform(-1, 1, (3, 3)))
+            sig = rng.uniform(-1, 1, (3, 3))  # a general (not symmetric) stress array
+            if case["preload"]:
+                it = fem.SolidBodyCauchyStress(fc) if case["useed"] % 2 else fem.SolidBodyCauchyStress(fc, cauchy_stress=np.eye(3))
+                it.assemble.vector(fc)
+                it.update(sig)
+                rec.label("load-set-by-update")
+            else:
+                it = fem.SolidBodyCauchyStress(fc, cauchy_stress=sig)
         items = [it]
     elif item in ("MPC", "Contact"):
         skip = tuple(case["skip"][:dim]) if not all(case["skip"][:dim]) else (False,) * dim
@@ -392,22 +406,25 @@ def check(item, case, rec):
             it = fem.FormItem(bform, lform, sym=case["mask"])
             symmetric = True
         else:
-            def P_of(F):
+            # the shear modulus reaches the weak forms through the item's keyword arguments and is set by update(), the way
+            # a Step ramps a FormItem (ramp_item = 0)
+            def P_of(F, mu):
                 J = det(F)
                 iFT = transpose(inv(F, J))
                 return mu * (F - iFT) + lm * np.log(J) * iFT
 
             @fem.Form(v=fc)
             def lform():
-                def L(v, **kw):
+                def L(v, shear, **kw):
                     F = fc.extract()[0]
-                    return ddot(P_of(F), grad(v))
+                    return ddot(P_of(F, shear), grad(v))
 
                 return [L]
 
             @fem.Form(v=fc, u=fc)
             def bform():
-                def a(v, u, **kw):
+                def a(v, u, shear, **kw):
+                    mu = shear
                     F = fc.extract()[0]
                     J = det(F)
                     iFT = transpose(inv(F, J))
@@ -419,8 +436,14 @@ def check(item, case, rec):
 
                 return [a]
 
-            it = fem.FormItem(bform, lform, sym=False)
+            it = fem.FormItem(bform, lform, sym=False, kwargs={"shear": 0.37, "unused": 1.0}, ramp_item=0)
+            it.update(mu)
             symmetric = True
+            # the same law as a solid body: the item assembles the same vector
+            ref_body = fem.SolidBody(fem.NeoHookeCompressible(mu=mu, lmbda=lm), fc)
+            rv = np.asarray(ref_body.assemble.vector(fc).toarray()).ravel()
+            gv = np.asarray(it.assemble.vector(fc).toarray()).ravel()
+            rec.close("form-item-vector=solid-body-vector", float(np.abs(gv - rv).max()) / max(float(np.abs(rv).max()), 1e-12), 1e-10)
         items = [it]
     elif item == "ItemList":
         fc = fem.FieldContainer([fem.Field(region, dim=dim)])
